@@ -799,7 +799,19 @@ theorem St.get_mem {s : St} {id : Str} {r : Res} (h : s.get id = some r) : ∃ p
   obtain ⟨p, hp, rfl⟩ := Option.map_eq_some_iff.mp h
   exact ⟨p, List.mem_of_find?_eq_some hp, rfl⟩
 
-theorem St.set_inv {s : St} {id : Str} {r : Res} (hs : StInv s) (hr : ResInv r) : StInv (s.set id r) := by
+/-- a property of single resources that every API call preserves -/
+structure Preserved (P : Res → Prop) : Prop where
+  empty : P {}
+  add : ∀ (r : Res) raw avail cur pre idx, P r → P (r.addVersion raw avail cur pre idx).1
+  select : ∀ fl (r : Res), P r → P (r.selectVersion fl)
+  blacklist : ∀ fl (r : Res) v, P r → P (r.blacklist fl v).1
+  purge : ∀ (r : Res) keep, P r → P (r.purge keep)
+  getFile : ∀ fl id (r : Res), P r → P (r.getFile fl id).1
+  disk : ∀ (r : Res) k, P r → P { r with disk := diskAdd k r.disk }
+
+def StAll (P : Res → Prop) (s : St) : Prop := ∀ p ∈ s.res, P p.2
+
+theorem St.set_all {P : Res → Prop} {s : St} {id : Str} {r : Res} (hs : StAll P s) (hr : P r) : StAll P (s.set id r) := by
   unfold St.set
   split
   · intro p hp
@@ -813,59 +825,203 @@ theorem St.set_inv {s : St} {id : Str} {r : Res} (hs : StInv s) (hr : ResInv r) 
     · have : p = (id, r) := by simpa using h
       subst this; exact hr
 
-theorem St.mapRes_inv {s : St} {f : Res → Res} (hs : StInv s) (hf : ∀ r, ResInv r → ResInv (f r)) : StInv (s.mapRes f) := by
+theorem St.mapRes_all {P : Res → Prop} {s : St} {f : Res → Res} (hs : StAll P s) (hf : ∀ r, P r → P (f r)) :
+    StAll P (s.mapRes f) := by
   intro p hp
   obtain ⟨q, hq, rfl⟩ := List.mem_map.mp hp
   exact hf _ (hs q hq)
 
-theorem St.get_inv {s : St} {id : Str} (hs : StInv s) : ResInv ((s.get id).getD {}) := by
+theorem St.get_all {P : Res → Prop} (hP : Preserved P) {s : St} {id : Str} (hs : StAll P s) : P ((s.get id).getD {}) := by
   cases h : s.get id with
-  | none => exact resInv_empty
+  | none => exact hP.empty
   | some r => obtain ⟨p, hp, rfl⟩ := St.get_mem h; exact hs p hp
 
-theorem step_inv {s : St} (op : Op) (hs : StInv s) : StInv (step s op).1 := by
+theorem step_all {P : Res → Prop} (hP : Preserved P) {s : St} (op : Op) (hs : StAll P s) : StAll P (step s op).1 := by
   cases op with
   | setFlags o d p => exact hs
   | add id ver avail cur pre idx =>
     simp only [step]
-    exact St.set_inv hs (addVersion_inv (St.get_inv hs))
+    exact St.set_all hs (hP.add _ _ _ _ _ _ (St.get_all hP hs))
   | touch id ver kind =>
     simp only [step]
     split
     · rename_i r v hr hv
       split
       · obtain ⟨p, hp, rfl⟩ := St.get_mem hr
-        exact St.set_inv hs (diskAdd_inv (hs p hp))
+        exact St.set_all hs (hP.disk _ _ (hs p hp))
       · exact hs
     · exact hs
-  | select => exact St.mapRes_inv hs (fun r hr => selectVersion_inv hr)
+  | select => exact St.mapRes_all hs (fun r hr => hP.select _ r hr)
   | getFile id =>
     simp only [step]
     split
     · exact hs
     · rename_i r hr
       obtain ⟨p, hp, rfl⟩ := St.get_mem hr
-      exact St.set_inv hs (getFile_inv (hs p hp))
+      exact St.set_all hs (hP.getFile _ _ _ (hs p hp))
   | blacklist id ver =>
     simp only [step]
     split
     · exact hs
     · rename_i r hr
       obtain ⟨p, hp, rfl⟩ := St.get_mem hr
-      have := blacklist_inv (fl := s.fl) (version := ver) (hs p hp)
-      split <;> (rename_i r' heq; rw [heq] at this; exact St.set_inv hs this)
-  | purge keep => exact St.mapRes_inv hs (fun r hr => purge_inv hr)
+      have := hP.blacklist s.fl _ ver (hs p hp)
+      split <;> (rename_i r' heq; rw [heq] at this; exact St.set_all hs this)
+  | purge keep => exact St.mapRes_all hs (fun r hr => hP.purge r keep hr)
   | selected => exact hs
   | getVersion id =>
     simp only [step]
     split <;> exact hs
 
-theorem run_inv (ops : List Op) : ∀ s, StInv s → StInv (run s ops) := by
+theorem run_all {P : Res → Prop} (hP : Preserved P) (ops : List Op) : ∀ s, StAll P s → StAll P (run s ops) := by
   induction ops with
   | nil => intro s hs; exact hs
-  | cons op ops ih => intro s hs; exact ih _ (step_inv op hs)
+  | cons op ops ih => intro s hs; exact ih _ (step_all hP op hs)
 
-theorem stInv_init : StInv {} := by intro p hp; simp at hp
+theorem stAll_init (P : Res → Prop) : StAll P {} := by intro p hp; simp at hp
+
+theorem resInv_preserved : Preserved ResInv where
+  empty := resInv_empty
+  add := fun _ _ _ _ _ _ h => addVersion_inv h
+  select := fun _ _ h => selectVersion_inv h
+  blacklist := fun _ _ _ h => blacklist_inv h
+  purge := fun _ _ h => purge_inv h
+  getFile := fun _ _ _ h => getFile_inv h
+  disk := fun _ _ h => diskAdd_inv h
+
+theorem run_inv (ops : List Op) : ∀ s, StInv s → StInv (run s ops) := run_all resInv_preserved ops
+
+theorem stInv_init : StInv {} := stAll_init _
+
+/-! ### At most one current release -/
+
+/-- all entries flagged as current release carry the same version number (with `VerNodup`: there is at most one) -/
+def OneCurrent (r : Res) : Prop := ∀ a ∈ r.versions, ∀ b ∈ r.versions, a.cur = true → b.cur = true → a.ver = b.ver
+
+/-- lists whose entries all come from `l` (same version number, same flag) inherit the property -/
+theorem oneCurrent_of_sub {l l' : List RV}
+    (h : ∀ a ∈ l, ∀ b ∈ l, a.cur = true → b.cur = true → a.ver = b.ver)
+    (hsub : ∀ x ∈ l', ∃ y ∈ l, y.ver = x.ver ∧ y.cur = x.cur) :
+    ∀ a ∈ l', ∀ b ∈ l', a.cur = true → b.cur = true → a.ver = b.ver := by
+  intro a ha b hb hac hbc
+  obtain ⟨a', ha', hav, hacur⟩ := hsub a ha
+  obtain ⟨b', hb', hbv, hbcur⟩ := hsub b hb
+  rw [← hav, ← hbv]
+  exact h a' ha' b' hb' (hacur ▸ hac) (hbcur ▸ hbc)
+
+theorem selectVersion_oneCurrent {fl : Flags} {r : Res} (h : OneCurrent r) : OneCurrent (r.selectVersion fl) :=
+  oneCurrent_of_sub h (fun x hx => ⟨x, mem_sortDesc.mp hx, rfl, rfl⟩)
+
+theorem purge_oneCurrent {r : Res} {keep : Int} (h : OneCurrent r) : OneCurrent (r.purge keep) := by
+  rcases purge_shape r keep with ⟨l', hp, he⟩ | ⟨i, _, _, he⟩
+  · rw [he]; exact oneCurrent_of_sub h (fun x hx => ⟨x, hp.mem_iff.mp hx, rfl, rfl⟩)
+  · rw [he]; exact oneCurrent_of_sub h (fun x hx => ⟨x, mem_sortDesc.mp (List.mem_of_mem_take hx), rfl, rfl⟩)
+
+theorem blacklist_oneCurrent {fl : Flags} {r : Res} {version : Str} (h : OneCurrent r) :
+    OneCurrent (r.blacklist fl version).1 := by
+  unfold Res.blacklist
+  split
+  · exact h
+  · split
+    · apply selectVersion_oneCurrent
+      refine oneCurrent_of_sub h ?_
+      intro x hx
+      rcases mem_updateFirst hx with hx | ⟨y, hy, _, rfl⟩
+      · exact ⟨x, hx, rfl, rfl⟩
+      · exact ⟨y, hy, rfl, rfl⟩
+    · exact h
+
+theorem getFile_oneCurrent {fl : Flags} {id : Str} {r : Res} (h : OneCurrent r) : OneCurrent (r.getFile fl id).1 := by
+  unfold Res.getFile
+  simp only []
+  generalize hg : (if r.selected.isNone then r.selectVersion fl else r) = r1
+  have h1 : OneCurrent r1 := by
+    subst hg; split
+    · exact selectVersion_oneCurrent h
+    · exact h
+  split
+  · exact h1
+  · split
+    · exact h1
+    · split
+      · exact h1
+      · split <;> exact h1
+
+theorem addVersion_oneCurrent {r : Res} {raw : Str} {avail cur pre : Bool} {idx : Option Bool} (h : OneCurrent r) :
+    OneCurrent (r.addVersion raw avail cur pre idx).1 := by
+  unfold Res.addVersion
+  simp only []
+  cases cur with
+  | false =>
+    -- no flag is reset, none is set
+    simp only [Bool.false_eq_true, if_false, Bool.or_false]
+    split
+    · exact h
+    · rename_i v _
+      simp only []
+      intro a ha b hb hac hbc
+      have key : ∀ x ∈ updateFirst (fun rv => rv.ver == v)
+          (fun rv => { rv with avail := rv.avail || avail, pre := rv.pre || pre || !v.pre.isEmpty })
+          (if r.versions.any (fun rv => rv.ver == v) then r.versions else r.versions ++ [{ ver := v }]),
+          x.cur = true → ∃ y ∈ r.versions, y.ver = x.ver ∧ y.cur = true := by
+        intro x hx hxc
+        have old : ∀ z ∈ (if r.versions.any (fun rv => rv.ver == v) then r.versions else r.versions ++ [{ ver := v }]),
+            z.cur = true → z ∈ r.versions := by
+          intro z hz hzc
+          split at hz
+          · exact hz
+          · rcases List.mem_append.mp hz with hz | hz
+            · exact hz
+            · have : z = { ver := v } := by simpa using hz
+              subst this; simp at hzc
+        rcases mem_updateFirst hx with hx | ⟨y, hy, _, rfl⟩
+        · exact ⟨x, old x hx hxc, rfl, hxc⟩
+        · exact ⟨y, old y hy hxc, rfl, hxc⟩
+      obtain ⟨a', ha', hav, hac'⟩ := key a ha hac
+      obtain ⟨b', hb', hbv, hbc'⟩ := key b hb hbc
+      rw [← hav, ← hbv]
+      exact h a' ha' b' hb' hac' hbc'
+  | true =>
+    -- every flag is reset first; afterwards only the entry with number `v` can carry it
+    simp only [if_true, Bool.or_true]
+    split
+    · intro a ha b hb hac
+      simp only [] at ha
+      obtain ⟨o, _, rfl⟩ := List.mem_map.mp ha
+      simp at hac
+    · rename_i v _
+      simp only []
+      have key : ∀ x ∈ updateFirst (fun rv => rv.ver == v)
+          (fun rv => { rv with avail := rv.avail || avail, cur := true, pre := rv.pre || pre || !v.pre.isEmpty })
+          (if (r.versions.map (fun rv => { rv with cur := false })).any (fun rv => rv.ver == v)
+            then r.versions.map (fun rv => { rv with cur := false })
+            else r.versions.map (fun rv => { rv with cur := false }) ++ [{ ver := v }]),
+          x.cur = true → x.ver = v := by
+        intro x hx hxc
+        have old : ∀ z ∈ (if (r.versions.map (fun rv => { rv with cur := false })).any (fun rv => rv.ver == v)
+            then r.versions.map (fun rv => { rv with cur := false })
+            else r.versions.map (fun rv => { rv with cur := false }) ++ [{ ver := v }]), z.cur = false := by
+          intro z hz
+          split at hz
+          · obtain ⟨o, _, rfl⟩ := List.mem_map.mp hz; rfl
+          · rcases List.mem_append.mp hz with hz | hz
+            · obtain ⟨o, _, rfl⟩ := List.mem_map.mp hz; rfl
+            · have : z = { ver := v } := by simpa using hz
+              subst this; rfl
+        rcases mem_updateFirst hx with hx | ⟨y, _, hpy, rfl⟩
+        · have := old x hx; simp [hxc] at this
+        · simpa using hpy
+      intro a ha b hb hac hbc
+      rw [key a ha hac, key b hb hbc]
+
+theorem oneCurrent_preserved : Preserved OneCurrent where
+  empty := by intro a ha; simp at ha
+  add := fun _ _ _ _ _ _ h => addVersion_oneCurrent h
+  select := fun _ _ h => selectVersion_oneCurrent h
+  blacklist := fun _ _ _ h => blacklist_oneCurrent h
+  purge := fun _ _ h => purge_oneCurrent h
+  getFile := fun _ _ _ h => getFile_oneCurrent h
+  disk := fun _ _ h => h
 
 instance (l : List RV) : Decidable (VerNodup l) := by unfold VerNodup; infer_instance
 instance (id : Str) : Decidable (ValidIdentifier id) := by unfold ValidIdentifier; infer_instance
